@@ -11,7 +11,7 @@ usage: python c20_exec.py jobs.json results.json
             "format": [{"pretty": str | null, "pretty_exc": str, "compact": str | null, "compact_exc": str}, ...],
             "emit":   [{"lines": [str, ...], "exc": str}, ...],        # the JSON lines written by a FileDestination
             "pp":     [{"rc": 0 | 1, "out_b64": base64 of what was written to stdout, "err": str}, ...],
-            "filter": [{"run": str | null, "run_exc": str, "main": str | null, "main_rc": ..., "main_exc": str}, ...]}
+            "filter": [{"run": str | null, "run_exc": str, "run_text": str | null, "run_text_exc": str, "main": str | null, "main_rc": ..., "main_exc": str}, ...]}
 """
 import sys, json, io
 
@@ -131,13 +131,19 @@ def do_filter(jobs):
     from eliot.filter import EliotFilter, main
     res = []
     for j in jobs:
-        r = {"run": None, "run_exc": "", "main": None, "main_rc": None, "main_exc": ""}
-        try:
+        r = {"run": None, "run_exc": "", "run_text": None, "run_text_exc": "", "main": None, "main_rc": None, "main_exc": ""}
+        try:                # the lines as bytes (what the docstring of EliotFilter promises to accept)
             out = io.StringIO()
             EliotFilter(j["expr"], [l.encode("utf-8") for l in j["lines"]], out).run()
             r["run"] = out.getvalue()
         except Exception as e:
             r["run_exc"] = "%s: %s" % (type(e).__name__, e)
+        try:                # the lines as text, each with its line break (what iterating over sys.stdin gives)
+            out = io.StringIO()
+            EliotFilter(j["expr"], [l + chr(10) for l in j["lines"]], out).run()
+            r["run_text"] = out.getvalue()
+        except Exception as e:
+            r["run_text_exc"] = "%s: %s" % (type(e).__name__, e)
         try:
             out, err = io.StringIO(), io.StringIO()
             fake = FakeSys(["eliot.filter", j["expr"]], io.StringIO("".join(l + "\n" for l in j["lines"])), out, err)
